@@ -398,6 +398,23 @@ def gen_aave_market(rng, name, n, prices, tokens=None, index_style=None, min_gap
     return mw
 
 
+def add_bystander(rng, world, prob=0.25):
+    """With probability `prob`: a second Aave pool over the same tokens with an index history of its own, registered with the
+    broker BEFORE the pool under test and never touched by the program. Whatever the bar loop does per market must reach each
+    market with that market's own rows."""
+    if rng.random() >= prob:
+        return None
+    mw0 = market_of(world)
+    by = gen_aave_market(rng, "aave_by", int(world["n"]), world["prices"], tokens=list(mw0["tokens"]), all_enabled=True,
+                         index_style=rng.choice(["slow", "fast", "jumpy"]))
+    world["markets"].insert(0, by)
+    return by
+
+
+def market_of(world, name="aave0"):
+    return next(m for m in world["markets"] if m.get("name") == name)
+
+
 def base_world(rng, n, ntok=None, interval="1min", start=None, **mopts):
     """A one-market Aave world with generated prices; returns (world, market world)."""
     ntok = ntok or rng.choice([2, 3, 3, 4])
